@@ -7,6 +7,8 @@ package main
 //                          `if r.<flag> { ...Decrease() ... }` (true) (go/ast)
 //   proxy_direct_clears_again : processError's `if s.directResponse {..}` block assigns receiverFiltersAgainPhase = InitPhase (go/ast)
 //   proxy_retry_checks_direct : doRetry has a top-level `if s.directResponse { return }` (go/ast)
+//   proxy_retry_refinalizes : doRetry calls FinalizeRequestHeaders (go/ast); proxy_timers_reset_stream : onPerReqTimeout and
+//                          onResponseTimeout call upstreamRequest.resetStream() (go/ast)
 //   proxy_put_resets_cursor : streamfilter.PutStreamFilterChain (or a chain method it calls) assigns 0 to both cursors (go/ast)
 //   proxy_default_global_ms : types.GlobalTimeout (evaluated)
 //   proxy_reason_code    : types.ConvertReasonToCode evaluated on every reset reason (runs the real function)
@@ -81,7 +83,7 @@ func genProxyTokens(repo string) (string, error) {
 	fmt.Fprintf(&b, "Definition proxy_loop_bound : nat := %s%%nat.\n", bound)
 
 	// --- does the direct-response branch of processError cancel a pending re-match / re-choose?
-	dca, dcr := false, false
+	dca, dcr, dru := false, false, false
 	if pe := FindFunc(f, "downStream", "processError"); pe != nil {
 		nif := 0
 		ast.Inspect(pe.Body, func(n ast.Node) bool {
@@ -127,6 +129,14 @@ func genProxyTokens(repo string) (string, error) {
 				ok = false
 			}
 			dcr = hasReset && hasCancel
+			ast.Inspect(is.Body, func(m ast.Node) bool {
+				if ce, isCall := m.(*ast.CallExpr); isCall {
+					if se, isSel := ce.Fun.(*ast.SelectorExpr); isSel && se.Sel.Name == "resetStream" {
+						dru = true
+					}
+				}
+				return true
+			})
 			return true
 		})
 		if nif != 1 {
@@ -137,6 +147,7 @@ func genProxyTokens(repo string) (string, error) {
 	}
 	fmt.Fprintf(&b, "Definition proxy_direct_clears_again : bool := %v.\n", dca)
 	fmt.Fprintf(&b, "Definition proxy_direct_cancels_retry : bool := %v.\n", dcr)
+	fmt.Fprintf(&b, "Definition proxy_direct_resets_upstream : bool := %v.\n", dru)
 
 	// --- does PutStreamFilterChain (or a method it calls on the chain) zero both filter cursors before the chain is pooled?
 	putResets := false
@@ -193,6 +204,31 @@ func genProxyTokens(repo string) (string, error) {
 		ok = false
 	}
 	fmt.Fprintf(&b, "Definition proxy_retry_checks_direct : bool := %v.\n", rcd)
+	// --- does doRetry run the route's FinalizeRequestHeaders (again)?  do the timer callbacks reset the upstream stream themselves?
+	callsIn := func(fn, callee string) (bool, bool) {
+		fd := FindFunc(f, "downStream", fn)
+		if fd == nil {
+			return false, false
+		}
+		found := false
+		ast.Inspect(fd.Body, func(n ast.Node) bool {
+			if ce, isCall := n.(*ast.CallExpr); isCall {
+				if se, isSel := ce.Fun.(*ast.SelectorExpr); isSel && se.Sel.Name == callee {
+					found = true
+				}
+			}
+			return true
+		})
+		return found, true
+	}
+	refin, ok1 := callsIn("doRetry", "FinalizeRequestHeaders")
+	r1, ok2 := callsIn("onPerReqTimeout", "resetStream")
+	r2, ok3 := callsIn("onResponseTimeout", "resetStream")
+	if !ok1 || !ok2 || !ok3 || r1 != r2 {
+		ok = false
+	}
+	fmt.Fprintf(&b, "Definition proxy_retry_refinalizes : bool := %v.\n", refin)
+	fmt.Fprintf(&b, "Definition proxy_timers_reset_stream : bool := %v.\n", r1 && r2)
 
 	// --- retry budget default and reset() shape
 	_, rf, err := ParseGoFile(repo, "pkg/proxy/retrystate.go")
@@ -264,7 +300,7 @@ func genProxyTokens(repo string) (string, error) {
 		}
 	}
 	fmt.Fprintf(&b, "Definition proxy_default_global_ms : Z := %d.\n", int64(types.GlobalTimeout/time.Millisecond))
-	b.WriteString("Definition proxy_src : srcp :=\n  {| loop_bound := proxy_loop_bound; min_budget := proxy_min_budget; reset_guarded := proxy_reset_guarded;\n     direct_clears_again := proxy_direct_clears_again;\n     direct_cancels_retry := proxy_direct_cancels_retry; put_resets_cursor := proxy_put_resets_cursor;\n     retry_checks_direct := proxy_retry_checks_direct; reason_code := proxy_reason_code |}.\n")
+	b.WriteString("Definition proxy_src : srcp :=\n  {| loop_bound := proxy_loop_bound; min_budget := proxy_min_budget; reset_guarded := proxy_reset_guarded;\n     direct_clears_again := proxy_direct_clears_again;\n     direct_cancels_retry := proxy_direct_cancels_retry; direct_resets_upstream := proxy_direct_resets_upstream;\n     put_resets_cursor := proxy_put_resets_cursor;\n     retry_checks_direct := proxy_retry_checks_direct; retry_refinalizes := proxy_retry_refinalizes;\n     timers_reset_stream := proxy_timers_reset_stream; reason_code := proxy_reason_code |}.\n")
 	fmt.Fprintf(&b, "Definition ProxyTokens_translator_ok := %v.\n", ok)
 	return b.String(), nil
 }
